@@ -25,6 +25,8 @@ def run(ck):
     ck.rule("R2", "SymbolicState.merge keeps a binding only when both states hold it with equal values", floor=2)
     ck.rule("R3", "only identifiers are substituted; sources are rewritten before the block is executed", floor=2)
     ck.rule("R4", "a second state for a block is merged with the first", floor=1)
+    ck.rule("R5", "the end-of-block state is handed to every possible destination that is not a memory cell", floor=1)
+    _successor_rules(ck)
 
     m = ck.repo.mod(CP)
     fn = m.func("is_expr_cst")
@@ -88,3 +90,32 @@ def run(ck):
     fn = m.func("add_state")
     ok = any(isinstance(n, ast.Assign) and norm(n.targets[0]) == "states[addr]" and norm(n.value) == "states[addr].merge(state)" for n in walk_body(fn))
     ck.ob("R4", "add_state", ok, m.where(fn), "a state reaching an already visited block replaces the recorded one instead of being merged with it")
+
+
+def _successor_rules(ck):
+    """R5: compute_cst_propagation_states joins the state leaving a block into the state of every block it can continue in.  On every
+    path of the loop over the possible destinations, add_state(...) is called, the only bypass being a destination known to be a memory
+    cell.  A destination skipped for another reason (not an integer: the offset-less locations of the internal blocks of an instruction;
+    unknown to the location table) leaves its successor with a state that is not an over-approximation of what reaches it - constants
+    that do not hold on that path are then propagated."""
+    from sa.cfg import CFG, node_calls
+    from sa.pathob import undischarged, path_text
+    m = ck.repo.mod(CP)
+    fn = m.func("compute_cst_propagation_states")
+    cfg = CFG(fn)
+    loops = [nd for nd in cfg.nodes if nd.kind == "for" and "possible_values" in norm(nd.ast.iter)]
+    ck.need(loops, "compute_cst_propagation_states: loop over the possible destinations not found")
+    L = loops[0]
+    adds = [nd for nd in cfg.nodes if any(norm(c.func) == "add_state" for c in node_calls(nd))]
+
+    def is_mem_edge(nd, label):
+        if nd.kind != "test":
+            return False
+        t, lab = nd.ast, label
+        while isinstance(t, ast.UnaryOp) and isinstance(t.op, ast.Not):
+            t, lab = t.operand, (not lab if lab in (True, False) else lab)
+        return isinstance(t, ast.Call) and isinstance(t.func, ast.Attribute) and t.func.attr == "is_mem" and lab is True
+    p = undischarged(cfg, lambda nd: nd in adds, edge_ok=is_mem_edge, start=(L.id, "iter"), targets=[L.id])
+    ck.ob("R5", "compute_cst_propagation_states:every-destination-gets-the-state", bool(adds) and p is None, m.where(L.ast),
+          "a possible destination can be passed over without add_state (path: %s): the block it designates keeps a state that does not "
+          "account for this predecessor" % (path_text(p) if p else "add_state not found"))
